@@ -2,11 +2,304 @@ package checks
 
 import (
 	"encoding/json"
+	"fmt"
+	"strings"
 
 	"verif/fw"
+	"verif/harness"
+	"verif/peer"
+	"verif/ref"
 )
 
-// client half of C14: filled in with the client harness.
-var runC14Client = func(c *fw.Ctx) {}
+// Client half of C14: the scripted server is the conforming sender; the real
+// client must hand credit back for every pattern of DATA it is sent.
 
-var replayC14Client = func(raw json.RawMessage) (string, bool) { return "client half not built", false }
+type c14cCase struct {
+	Class string `json:"class"`
+	Chunk int    `json:"chunk"`
+	Pad   int    `json:"pad"`
+}
+
+var c14cClasses = []string{"download", "padded-download", "padding-only-frames", "empty-data-frames", "timed-out-request-data-in-flight", "reset-by-server-mid-body", "two-streams-interleaved"}
+
+// csender is the scripted server's send-side ledger towards the client.
+type csender struct {
+	h      *harness.Client
+	srv    *harness.SrvConn
+	conn   int64
+	init   int64
+	strm   map[uint32]int64
+	wuSeen int
+	sent   int64
+	peak   int64
+	speak  map[uint32]int64
+}
+
+func (s *csender) absorb() (string, string) {
+	for ; s.wuSeen < len(s.srv.WindowUps); s.wuSeen++ {
+		w := s.srv.WindowUps[s.wuSeen]
+		if w.Inc == 0 {
+			return "zero-increment", fmt.Sprintf("WINDOW_UPDATE with increment 0 on stream %d", w.Stream)
+		}
+		if w.Stream == 0 {
+			s.conn += int64(w.Inc)
+			if s.conn > 1<<31-1 {
+				return "window-above-maximum connection", fmt.Sprintf("connection window pushed to %d", s.conn)
+			}
+			if s.peak != 0 && s.conn < s.peak {
+				return "credit-leak connection", fmt.Sprintf("after WINDOW_UPDATE(+%d) the connection window is %d; after the previous refill it was %d: %d bytes of DATA were never credited back (sent %d)", w.Inc, s.conn, s.peak, s.peak-s.conn, s.sent)
+			}
+			s.peak = s.conn
+		} else if _, ok := s.strm[w.Stream]; ok {
+			s.strm[w.Stream] += int64(w.Inc)
+			if s.strm[w.Stream] > 1<<31-1 {
+				return "window-above-maximum stream", fmt.Sprintf("stream %d window pushed to %d", w.Stream, s.strm[w.Stream])
+			}
+		}
+	}
+	return "", ""
+}
+
+func (s *csender) send(id uint32, data []byte, es bool, pad int) (string, string) {
+	n := int64(len(data))
+	if pad >= 0 {
+		n += int64(pad) + 1
+	}
+	if r, d := s.absorb(); r != "" {
+		return r, d
+	}
+	if n > 0 && (s.conn < n || s.strm[id] < n) {
+		which := "connection"
+		if s.strm[id] < n && s.conn >= n {
+			which = "stream"
+		}
+		return "sender-starved " + which, fmt.Sprintf("server wants to send %d flow-controlled bytes on stream %d: connection window %d, stream window %d, client quiescent (sent %d)", n, id, s.conn, s.strm[id], s.sent)
+	}
+	s.conn -= n
+	s.strm[id] -= n
+	s.sent += n
+	s.h.Send(s.srv.Idx, peer.Data(id, data, es, pad))
+	return "", ""
+}
+
+func c14cExec(cs c14cCase) (*fw.Violation, *harness.Client, int64) {
+	h := harness.NewClient(harness.ClientOpts{MaxResponseTime: 1000000000})
+	mk := func(rule, detail string) *fw.Violation {
+		ev := h.EventLog
+		if len(ev) > 10 {
+			ev = append([]string{fmt.Sprintf("…%d earlier events…", len(ev)-10)}, ev[len(ev)-10:]...)
+		}
+		parts := strings.SplitN(rule, " ", 2)
+		shape := "client " + cs.Class
+		if len(parts) > 1 {
+			shape += " " + parts[1]
+		}
+		return &fw.Violation{Rule: parts[0], Shape: shape, Detail: detail + "\n    last events: " + strings.Join(ev, " ; "), Replay: map[string]any{"family": "c14client", "case": cs}}
+	}
+	var s *csender
+	reqN := 0
+	open := func() (*harness.CCall, uint32, string) {
+		reqN++
+		call := h.Go(harness.ReqSpec{Tag: fmt.Sprint("d", reqN), Path: fmt.Sprint("/d", reqN)})
+		if len(h.Conns) == 0 {
+			return call, 0, "no connection"
+		}
+		srv := h.Conns[len(h.Conns)-1]
+		if s == nil || s.srv != srv {
+			s = &csender{h: h, srv: srv, conn: 65535, init: 65535, strm: map[uint32]int64{}}
+			for _, st := range srv.Settings {
+				for _, p := range st {
+					if p.ID == peer.SInitialWindowSize {
+						s.init = int64(p.Val)
+					}
+				}
+			}
+		}
+		if len(srv.Order) == 0 {
+			return call, 0, "request not sent"
+		}
+		id := srv.Order[len(srv.Order)-1]
+		s.strm[id] = s.init
+		h.Send(srv.Idx, srv.RespFrames(id, []ref.Field{{Name: ":status", Value: "200"}}, nil, nil, [][]byte{nil}, -1)[0])
+		return call, id, ""
+	}
+	chunk := []byte(valOfLen(cs.Chunk))
+	var target int64 = 3 << 20
+	guard := 0
+	for s == nil || s.sent < target {
+		guard++
+		if guard > 400 {
+			return mk("harness-horizon", "pattern did not reach the target volume"), h, 0
+		}
+		switch cs.Class {
+		case "download", "padded-download":
+			call, id, e := open()
+			if e != "" {
+				return mk("harness", e), h, 0
+			}
+			for i := 0; i < 40; i++ {
+				if r, d := s.send(id, chunk, i == 39, cs.Pad); r != "" {
+					return mk(r, d), h, s.sent
+				}
+			}
+			if !call.Done || call.Err != nil || len(call.Body) != 40*len(chunk) {
+				return mk("download-corrupted", fmt.Sprintf("download of %d bytes: done=%v err=%v got %d bytes", 40*len(chunk), call.Done, call.Err, len(call.Body))), h, s.sent
+			}
+		case "padding-only-frames":
+			call, id, e := open()
+			if e != "" {
+				return mk("harness", e), h, 0
+			}
+			// more padding on ONE stream than its window holds: it has to come back
+			for i := 0; int64(i)*256 < 2*s.init+65536; i++ {
+				if r, d := s.send(id, nil, false, 255); r != "" {
+					return mk(r, d), h, s.sent
+				}
+			}
+			if r, d := s.send(id, []byte("x"), true, cs.Pad); r != "" {
+				return mk(r, d), h, s.sent
+			}
+			if !call.Done || call.Err != nil {
+				return mk("download-corrupted", fmt.Sprintf("done=%v err=%v", call.Done, call.Err)), h, s.sent
+			}
+		case "empty-data-frames":
+			_, id, e := open()
+			if e != "" {
+				return mk("harness", e), h, 0
+			}
+			for i := 0; i < 20; i++ {
+				if r, d := s.send(id, nil, false, -1); r != "" {
+					return mk(r, d), h, s.sent
+				}
+				if r, d := s.send(id, chunk, false, cs.Pad); r != "" {
+					return mk(r, d), h, s.sent
+				}
+			}
+			if r, d := s.send(id, nil, true, -1); r != "" {
+				return mk(r, d), h, s.sent
+			}
+		case "timed-out-request-data-in-flight":
+			call, id, e := open()
+			if e != "" {
+				return mk("harness", e), h, 0
+			}
+			for i := 0; i < 5; i++ {
+				if r, d := s.send(id, chunk, false, cs.Pad); r != "" {
+					return mk(r, d), h, s.sent
+				}
+			}
+			h.FireTimer("client.go") // the request's MaxResponseTime
+			if !call.Done {
+				return mk("request-never-resolved", "request did not end when its timeout fired"), h, s.sent
+			}
+			// DATA that was already on its way when the client gave up
+			for i := 0; i < 20; i++ {
+				if len(s.srv.Streams[id].Rst) > 0 && i > 10 {
+					break
+				}
+				if r, d := s.send(id, chunk, false, cs.Pad); r != "" {
+					if strings.HasPrefix(r, "sender-starved stream") {
+						break // the stream is gone for the client; only the connection window must recover
+					}
+					return mk(r, d), h, s.sent
+				}
+			}
+		case "reset-by-server-mid-body":
+			_, id, e := open()
+			if e != "" {
+				return mk("harness", e), h, 0
+			}
+			for i := 0; i < 10; i++ {
+				if r, d := s.send(id, chunk, false, cs.Pad); r != "" {
+					return mk(r, d), h, s.sent
+				}
+			}
+			h.Send(s.srv.Idx, peer.RstStream(id, 2))
+		case "two-streams-interleaved":
+			c1, id1, e := open()
+			if e != "" {
+				return mk("harness", e), h, 0
+			}
+			c2, id2, e := open()
+			if e != "" {
+				return mk("harness", e), h, 0
+			}
+			for i := 0; i < 30; i++ {
+				if r, d := s.send(id1, chunk, i == 29, cs.Pad); r != "" {
+					return mk(r, d), h, s.sent
+				}
+				if r, d := s.send(id2, chunk, i == 29, -1); r != "" {
+					return mk(r, d), h, s.sent
+				}
+			}
+			if !c1.Done || !c2.Done || c1.Err != nil || c2.Err != nil {
+				return mk("download-corrupted", fmt.Sprintf("done=%v/%v err=%v/%v", c1.Done, c2.Done, c1.Err, c2.Err)), h, s.sent
+			}
+		}
+		if s.srv.C.Closed() || len(s.srv.GoAways) > 0 {
+			return mk("client-dropped-connection", fmt.Sprintf("conforming download traffic made the client close the connection (GOAWAY %v)", s.srv.GoAways)), h, s.sent
+		}
+	}
+	if r, d := s.absorb(); r != "" {
+		return mk(r, d), h, s.sent
+	}
+	if len(h.S.Panics) > 0 {
+		return mk("process-would-crash", strings.Join(h.S.Panics, "; ")), h, s.sent
+	}
+	return nil, h, s.sent
+}
+
+func init() {
+	runC14Client = func(c *fw.Ctx) {
+		var item int64 = 1000
+		chunks := []int{1000, 16384}
+		pads := []int{-1, 255}
+		if c.Tier == "thorough" {
+			chunks = []int{100, 1000, 16383, 16384}
+			pads = []int{-1, 0, 1, 255}
+		}
+		for _, cl := range c14cClasses {
+			for _, ch := range chunks {
+				for _, pad := range pads {
+					if cl == "download" && pad >= 0 || cl == "padded-download" && pad < 0 {
+						continue
+					}
+					if ch+max(pad, 0)+1 > 16384 {
+						continue
+					}
+					if item++; !c.Mine(item) {
+						continue
+					}
+					if c.Expired("C14 client") {
+						return
+					}
+					cs := c14cCase{Class: cl, Chunk: ch, Pad: pad}
+					v, h, sent := c14cExec(cs)
+					js, _ := json.Marshal(cs)
+					c.Eval(nt(true, append([]byte("client"), js...)))
+					c.AddTransitions(int64(h.Events))
+					c.AddTraces(1)
+					c.State(fw.Hash("c14c", cs, sent))
+					if v != nil {
+						c.Violate(*v)
+						c.Outcome(v.Rule)
+					} else {
+						c.Outcome("never-starved")
+					}
+					h.Close()
+				}
+			}
+		}
+		c.Family("client-receiver")
+	}
+	replayC14Client = func(raw json.RawMessage) (string, bool) {
+		var cs c14cCase
+		json.Unmarshal(raw, &cs)
+		v, h, sent := c14cExec(cs)
+		defer h.Close()
+		if v != nil {
+			return v.Rule + " [" + v.Shape + "]: " + v.Detail, true
+		}
+		return fmt.Sprintf("server never starved over %d bytes", sent), false
+	}
+}
